@@ -28,3 +28,8 @@ claim("C17",
       "Every replica state reached by C01-style histories over all families (incl. unicode and rich text, nested types, xml), Bytes and Utf16 offsets, gc on/off, and by every delivery order of their update pools (incl. states with stashed updates) is read through every public accessor of every live type; len/iter/get/to_json, get_string/diff/len, keys/values/iter/contains_key/get, xml children/first_child/get/siblings/parent/successors and the rendered string parsed back must agree.",
       "types read through the API of their own kind; tiny XML reader in the harness (harness/src/reads.rs)",
       "DESIGN.md 4/C17")
+claim("C13",
+      "bounded-exhaustive history enumeration on gc-disabled real replicas; every (snapshot point i, later point j) pair restored and compared",
+      "All histories (quick L=3..4, thorough L=4..5; families txt/rtx/uni/arr/map/nest/xml; 1..2 replicas with causal syncs) are executed; a snapshot and the visible dump are recorded after every prefix, and at every later state encode_state_from_snapshot (v1 and v2) is applied to a fresh document whose dump must equal the recorded one; snapshot encode/decode round-trips; a gc-enabled twin must refuse with an error.",
+      "snapshots taken without pending updates; restore target has formatting clean-up off",
+      "DESIGN.md 4/C13")
